@@ -201,6 +201,34 @@ def cache_history(req, C):
     return {"steps": out}
 
 
+def items_of_temporary(case, C):
+    """Build the tensor, record what it stores, take items() from a temporary, drop every reference, collect, stir
+    the allocator, and only then drain the iterator."""
+    import gc
+
+    from harness.props import c09
+
+    coords = [tuple(c) for c in case["coords"]]
+    vals = [float(v) for v in case["vals"]]
+    dims = tuple(case["dims"])
+    try:
+        t = c09.build(case["ctor"], coords, vals, dims, case["fmt"])
+    except Exception as e:  # noqa: BLE001
+        return {"skipped": f"constructor raised {type(e).__name__}"}
+    alive = [[list(c), v] for c, v in t.items()]
+    del t
+    try:
+        it = c09.build(case["ctor"], coords, vals, dims, case["fmt"]).items()
+        gc.collect()
+        junk = [c09.build("aos", [(k % 3,)], [float(k)], (3,), "s") for k in range(20)]
+        junk2 = [bytearray(32 + 8 * k) for k in range(64)]
+        out = [[list(c), v] for c, v in it]
+        del junk, junk2
+        return {"items": out, "stored_while_alive": alive}
+    except Exception as e:  # noqa: BLE001
+        return {"raised": f"{type(e).__name__}: {e}"[:200]}
+
+
 def main():
     out = os.fdopen(os.dup(1), "w")
     os.dup2(2, 1)
@@ -254,6 +282,8 @@ def main():
                 rep = {"results": [operator_call(c, C) for c in req["calls"]]}
             elif op == "cache_history":
                 rep = cache_history(req, C)
+            elif op == "items_of_temporary":
+                rep = {"results": [items_of_temporary(c, C) for c in req["cases"]]}
             elif op == "llvm_program":
                 rep = llvm_program(req, bridge, C)
             else:
